@@ -555,4 +555,70 @@ theorem sanitizer_micro_atom (sp u w : Str) (hsp : sp ∈ microSpellings) (hu : 
   have hp : ['u'] ∈ optPrefixes := by decide
   exact ⟨(atomic_generic ['u'] u w hp hu hw).2, split_generic ['u'] u w hp hu hw⟩
 
+/-! ### sanitizer on compounds written with blanks -/
+
+theorem containsSub_mu_sep (a rest : Str) (c : Char) (hc : c ≠ 'm' ∧ c ≠ 'u') :
+    containsSub ['m', 'u'] (a ++ c :: rest) = (containsSub ['m', 'u'] a || containsSub ['m', 'u'] rest) := by
+  induction a with
+  | nil =>
+    rw [List.nil_append, containsSub_cons, containsSub_nil _ (by simp)]
+    have : ('m' == c) = false := by simpa using hc.1.symm
+    simp [List.isPrefixOf, this]
+  | cons x xs ih =>
+    rw [List.cons_append, containsSub_cons, containsSub_cons, ih, Bool.or_assoc]
+    congr 1
+    cases xs with
+    | nil =>
+      have : ('u' == c) = false := by simpa using hc.2.symm
+      simp [List.isPrefixOf, this]
+    | cons y ys => simp [List.isPrefixOf]
+
+theorem validAtom_clean (a : Str) (ha : ValidAtom a) :
+    micro1 ∉ a ∧ micro2 ∉ a ∧ containsSub ['m', 'u'] a = false := by
+  have hfix := sanitizer_atom_fixed a ha
+  obtain ⟨_, h2, h3, h4⟩ := sanitizer_is_clean' a
+  rw [hfix] at h2 h3 h4
+  exact ⟨h2, h3, h4⟩
+
+theorem joinCompound_clean : ∀ (l : List (Char × Str)) (a₀ : Str), ValidAtom a₀ → ValidSeq l →
+    micro1 ∉ joinCompound a₀ l ∧ micro2 ∉ joinCompound a₀ l ∧
+      containsSub ['m', 'u'] (joinCompound a₀ l) = false := by
+  intro l
+  induction l with
+  | nil => intro a₀ ha _; exact validAtom_clean a₀ ha
+  | cons sa l ih =>
+    intro a₀ ha hl
+    obtain ⟨sep, a⟩ := sa
+    have hsa := hl (sep, a) (by simp)
+    have hsep : sep = '*' ∨ sep = '/' := hsa.1
+    obtain ⟨i1, i2, i3⟩ := ih a hsa.2 (fun x hx => hl x (by simp [hx]))
+    obtain ⟨c1, c2, c3⟩ := validAtom_clean a₀ ha
+    have n1 : sep ≠ micro1 ∧ sep ≠ micro2 ∧ sep ≠ 'm' ∧ sep ≠ 'u' := by
+      rcases hsep with rfl | rfl <;> decide
+    simp only [joinCompound]
+    refine ⟨?_, ?_, ?_⟩
+    · intro h
+      rcases List.mem_append.mp h with h | h
+      · exact c1 h
+      · rcases List.mem_cons.mp h with h | h
+        · exact n1.1 h.symm
+        · exact i1 h
+    · intro h
+      rcases List.mem_append.mp h with h | h
+      · exact c2 h
+      · rcases List.mem_cons.mp h with h | h
+        · exact n1.2.1 h.symm
+        · exact i2 h
+    · rw [containsSub_mu_sep _ _ _ ⟨n1.2.2.1, n1.2.2.2⟩, c3, i3]; rfl
+
+/-- a product/quotient of table atoms written with blanks around the separators is, after the clean-up, the
+blank-free sequence — recognised as compound and SI -/
+theorem sanitizer_padded (a₀ : Str) (l : List (Str × Char × Str × Str)) (ha : ValidAtom a₀)
+    (hl : ValidPadded l) :
+    sanitizer (joinPadded a₀ l) = joinCompound a₀ (stripPads l) := by
+  have hv := validSeq_stripPads l hl
+  obtain ⟨h2, h3, h4⟩ := joinCompound_clean (stripPads l) a₀ ha hv
+  rw [sanitizer_removeBlanks, removeBlanks_joinPadded l a₀ ha hl]
+  exact sanitizer_fixed_of_clean _ (joinCompound_noBlank _ a₀ ha hv) h2 h3 h4
+
 end Nix.Units.Lemmas
